@@ -276,3 +276,44 @@ def generate(api):
         api.broken('leaf', 'max_bbox', PROPS + ['C19'], ex)
 
     api.write_gen('LeafRender.v', "\n".join(out))
+    gen_morph(api, rs, U, Em)
+
+
+def gen_morph(api, rs, U, Em):
+    """Gen/LeafMorph.v: the window of filter::morphology::apply (columns, rows, target) from morphology.rs."""
+    MREL = 'crates/resvg/src/filter/morphology.rs'
+    out = [api.HEADER, "From RV Require Import Model.Base Model.RenderPrims.\n"]
+    try:
+        src = strip_comments(api.rd(MREL))
+        m = re.search(r"\bpub\s+fn\s+apply\s*\(\s*operator:\s*MorphologyOperator,\s*rx:\s*f32,\s*ry:\s*f32,\s*src:\s*ImageRefMut\s*\)", src)
+        if not m:
+            raise U("morphology::apply(operator, rx, ry, src) not found")
+        body = src[m.end():]
+        cfg = dict(dom='Z', methods={'ceil': 'f32_ceil', 'floor': 'f32_floor', 'round': 'f32_round',
+                                     'saturating_mul': 'u32_saturating_mul', 'wrapping_mul': 'u32_wrapping_mul'},
+                   casts={'u32': 'as_u32', 'i32': 'as_i32'}, calls={'min': 'Z.min', 'max': 'Z.max'})
+        for name, var, dim in (('columns', 'rx', 'width'), ('rows', 'ry', 'height')):
+            mm = re.search(r"let\s+%s\s*=\s*([^;]+);" % name, body)
+            if not mm:
+                raise U("`let %s = ..;` not found in morphology::apply" % name)
+            e = re.sub(r"src\s*\.\s*%s" % dim, "src_dim", mm.group(1))
+            if re.search(r"\bsrc\b", e):
+                raise U("%s depends on something other than %s and src.%s: %s" % (name, var, dim, mm.group(1).strip()))
+            e = re.sub(r"\b%s\b" % var, "r", e)
+            d = Em(cfg).block(rs.parse_body("{ %s }" % e))
+            out.append("(* %s :: apply: let %s = %s; *)\nDefinition morph_%s (r : Q) (src_dim : Z) : Z :=\n  %s.\n"
+                       % (MREL, name, " ".join(mm.group(1).split()), name, d))
+        for name, of in (('target_x', 'columns'), ('target_y', 'rows')):
+            if not re.search(r"let\s+%s\s*=\s*\(\s*%s\s+as\s+f32\s*/\s*2\.0\s*\)\s*\.floor\(\)\s+as\s+u32\s*;" % (name, of), body):
+                raise U("`let %s = (%s as f32 / 2.0).floor() as u32;` not found" % (name, of))
+        out.append("(* let target_x = (columns as f32 / 2.0).floor() as u32;  (same for y) *)\nDefinition morph_target (n : Z) : Z := Z.div n 2.\n")
+        for pat, what in ((r"for\s+oy\s+in\s+0\s*\.\.\s*rows\s*\{\s*for\s+ox\s+in\s+0\s*\.\.\s*columns\s*\{", "the window loops `for oy in 0..rows { for ox in 0..columns {`"),
+                          (r"let\s+tx\s*=\s*x\s+as\s+i32\s*-\s*target_x\s+as\s+i32\s*\+\s*ox\s+as\s+i32\s*;", "`let tx = x as i32 - target_x as i32 + ox as i32;`"),
+                          (r"let\s+ty\s*=\s*y\s+as\s+i32\s*-\s*target_y\s+as\s+i32\s*\+\s*oy\s+as\s+i32\s*;", "`let ty = y as i32 - target_y as i32 + oy as i32;`"),
+                          (r"if\s+tx\s*<\s*0\s*\|\|\s*tx\s*>\s*width_max\s*\|\|\s*ty\s*<\s*0\s*\|\|\s*ty\s*>\s*height_max\s*\{\s*continue;", "the out-of-image `continue`")):
+            if not re.search(pat, body):
+                raise U("morphology::apply: %s not found" % what)
+        api.ok('leaves', 'morphology_window', props=['C02'], rel=MREL)
+    except (U, OSError, ValueError, IndexError) as ex:
+        api.broken('leaf', 'morphology_window', ['C02'], ex)
+    api.write_gen('LeafMorph.v', "\n".join(out))
